@@ -260,6 +260,9 @@ type LazyConn struct {
 	Policy  func(max, off int) int
 	OnRead  func(p []byte, off int)
 	Writes  int
+	// HiccupErr != nil: one transient read error after HiccupAt response bytes (see env.Src)
+	HiccupAt  int
+	HiccupErr error
 }
 
 func (l *LazyConn) Write(p []byte) (int, error) {
@@ -272,6 +275,7 @@ func (l *LazyConn) Read(p []byte) (int, error) {
 		l.Src = env.NewSrc(l.Respond(l.Req.Bytes()))
 		l.Src.Policy = l.Policy
 		l.Src.OnRead = l.OnRead
+		l.Src.HiccupAt, l.Src.HiccupErr = l.HiccupAt, l.HiccupErr
 	}
 	return l.Src.Read(p)
 }
